@@ -8,7 +8,7 @@ import operator
 import time
 from collections import Counter
 
-from ..common import Run, rotate, run_pool
+from ..common import cap_findings, too_many, Run, rotate, run_pool
 from ..tensors import all_formats, fmt_str, parse_fmt
 
 OPS = {"+": operator.add, "-": operator.sub, "*": operator.mul}
@@ -121,9 +121,9 @@ def work(unit):
                               want_fmt=expected_format(op, fa, fb) if natural(fa) and natural(fb) else None)
                         if len(samples) < 1 and e is None and len(sa) >= 1 and len(sb) >= 1:
                             samples.append(case)
-                if len(findings) > 30:
+                if too_many(findings):
                     break
-            if len(findings) > 30:
+            if too_many(findings):
                 break
         # mismatching dimensions (one component differs)
         if order >= 1:
@@ -168,7 +168,7 @@ def work(unit):
                             if natural(fa):
                                 want = "".join(m.character for m in fa.modes) if op == "*" else "d" * order
                             judge(r, e, expect, dims, case, findings, stats, want_fmt=want)
-            if len(findings) > 30:
+            if too_many(findings):
                 break
     elif kind == "matmul":
         fa, fb = parse_fmt(unit["fa"]), parse_fmt(unit["fb"])
@@ -212,7 +212,7 @@ def work(unit):
                         if ok and natural(fa) and natural(fb):
                             want = ("" if oa == 1 else fa.modes[0].character) + ("" if ob == 1 else fb.modes[1].character)
                         judge(r, e, expect, exp_dims, case, findings, stats, want_fmt=want, shape_ok=ok)
-                    if len(findings) > 30:
+                    if too_many(findings):
                         break
     elif kind == "unsupported":
         from tensora import Tensor
@@ -241,7 +241,7 @@ def work(unit):
                 except Exception as ex:  # noqa: BLE001
                     findings.append(_f("operator-raises", f"{op} with {other!r}: {type(ex).__name__}", {"other": repr(other)},
                                        exception=type(ex).__name__, site=_site(ex)))
-    return {"stats": dict(stats), "findings": findings[:40], "samples": samples, "n": n, "wall": time.time() - t0}
+    return {"stats": dict(stats), "findings": cap_findings(findings), "samples": samples, "n": n, "wall": time.time() - t0}
 
 
 def run(tier, seed):
